@@ -79,6 +79,9 @@ def inputs_for(tier: str, rng) -> list[tuple[bytes, int]]:
             data.append(form % k)
     arr = b",".join(b"%d" % (i % 256) for i in range(520))
     data += [arr + b" -bxor 7", arr + b" -bxor 700", arr + b" -bxor $k", b"0x41," * 510 + b"0x42 -bxor", b"300," * 510 + b"1", b"256,1," * 260 + b"1 -bxor 1"]
+    for odd in (b"0X41", b"0x4F", b"065", b"007", b"0x0", b"00x41", b"256", b"999", b"0XFF"):
+        data.append(b"1," * 255 + odd + b"," + b"2," * 254 + b"3")          # one oddly spelled element among 510
+        data.append((odd + b",") * 505 + b"1 -bxor 7")
     for period in (1, 2, 3, 4, 5, 8, 13, 20, 40):
         plain = (b"This program cannot be run in DOS mode. " * 40)[: 520 if not big else 1500]
         key = bytes(rng.randrange(1, 256) for _ in range(period))
